@@ -181,6 +181,48 @@ func partStalls(c *check.Ctx, a *acc) {
 	a.add(done, done, "stalls: a member stops reading while another relays hundreds to thousands of custom messages to the session (beyond socket buffers + send queue); the silent staller must be disconnected by the idle timeout through the normal path, a member of another session must be served throughout, and the session must work again afterwards", samples...)
 }
 
+// partKeepAlive: "one that keeps sending is not disconnected", per message kind.
+func partKeepAlive(c *check.Ctx, a *acc) {
+	bin, err := c.WS.Build("lab", "plain")
+	if err != nil {
+		c.Inconc("build failed: " + err.Error())
+		return
+	}
+	const idle = 1500 * time.Millisecond
+	p, err := c.WS.StartLab(bin, sut.LabOpts{Idle: idle, Frame: 5 * time.Millisecond, Name: "keepalive"})
+	if err != nil {
+		c.Inconc(err.Error())
+		return
+	}
+	defer p.Kill()
+	var mu sync.Mutex
+	done, kept := 0, 0
+	sent := map[string]int{}
+	kinds := e4.KeepAliveKinds
+	parallel(len(kinds), len(kinds), func(i int) {
+		out := e4.KeepAliveTrial(p, idle, kinds[i])
+		mu.Lock()
+		defer mu.Unlock()
+		if out.Inconclusive != "" {
+			c.Inconc(out.Inconclusive)
+			return
+		}
+		done++
+		sent[kinds[i]] = out.Sent
+		if len(out.Findings) == 0 {
+			kept++
+		}
+		for _, f := range out.Findings {
+			c.Report(f)
+		}
+	})
+	c.Coverage["keep_alive_trials"] = done
+	c.Coverage["keep_alive_trials_still_connected"] = kept
+	c.Coverage["keep_alive_messages_sent_per_kind"] = sent
+	a.add(done, done, "keep-alive: a session member sends one message of a single kind (each core and module message type, accepted or refused with an error answer, and an unknown type number) every idle/6 for 2.6 idle timeouts and nothing else; it must still be connected",
+		map[string]any{"engine": "E4 keep-alive", "kinds": kinds, "idle_timeout": idle.String()})
+}
+
 func init() {
 	registry["C08"] = func(c *check.Ctx) int {
 		c.Level = "fault_enumeration"
@@ -188,6 +230,7 @@ func init() {
 		partFaults(c, a)
 		partBursts(c, a)
 		partStalls(c, a)
+		partKeepAlive(c, a)
 		partGated(c, a, []func(*sut.Proc) *e2.Result{e2.G13FrameWorkerVsLeaver}, 1)
 		return a.finish(c)
 	}
